@@ -19,6 +19,11 @@ RULE = (
     'prefix twice); every URI used by a selector is declared; deleting a used namespace is rejected and changes nothing; '
     'the (namespace URI, local name) pairs of every living selector are unchanged; the serialisation holds only '
     'well-formed @namespace rules and reparses to the same pairs; an undeclared prefix is rejected with NamespaceErr. '
+    'resolution: sheets rendered from a model - @namespace declarations over the prefixes a / A / b / Svg / e-acute / default (prefixes '
+    'are case-sensitive names; optionally spelled with a hex escape), then rules built from 11 selector templates (type, attribute, '
+    'universal, :not() argument, any-namespace, no-namespace, default-namespace) at top level or in @media: the (item type, URI, '
+    'local name) sequence of every surviving selector and the reported mapping must equal what the model resolves; a rule using an '
+    'undeclared prefix must be gone. '
     'Non-trivial: >= 2 namespace operations of different kinds with a namespaced selector alive; distinct by history.'
 )
 ASSUMPTIONS = [
@@ -417,3 +422,96 @@ def check_parsed(case, ctx):
 
 
 SUBS.append(Sub('parsed', check_parsed, strategy=parsed_strategy, quick=4000, thorough=150000, shards_quick=8, budget_quick=60))
+
+# --------------------------------------------------------------------------- resolution oracle: prefixes are case-sensitive names
+
+RES_PREFIXES = ['a', 'A', 'b', 'Svg', 'é']
+RES_URIS = [P, Q, N, D, 'urn:x']
+# selector templates: (text with {p} for the prefix, [(item type, 'P' | 'ANY' | 'NONE' | 'DEFAULT', local name)])
+SEL_T = [
+    ('{p}|y', [('type-selector', 'P', 'y')]),
+    ('{p}|cap > u', [('type-selector', 'P', 'cap'), ('type-selector', 'DEFAULT', 'u')]),
+    ('[{p}|t]', [('attribute-selector', 'P', 't')]),
+    ('[{p}|t=v].k', [('attribute-selector', 'P', 't')]),
+    ('{p}|*', [('universal', 'P', '*')]),
+    ('x:not({p}|q)', [('type-selector', 'DEFAULT', 'x'), ('negation-type-selector', 'P', 'q')]),
+    ('*:not({p}|*)', [('universal', 'DEFAULT', '*'), ('universal', 'P', '*')]),
+    ('*|w', [('type-selector', 'ANY', 'w')]),
+    ('|v', [('type-selector', 'NONE', 'v')]),
+    ('u[s]', [('type-selector', 'DEFAULT', 'u')]),
+    ('{p}|m {p}|n', [('type-selector', 'P', 'm'), ('type-selector', 'P', 'n')]),
+]
+res_rule = st.tuples(st.lists(st.tuples(st.integers(0, len(SEL_T) - 1), st.sampled_from(RES_PREFIXES)), min_size=1, max_size=3), st.booleans())
+res_strategy = st.fixed_dictionaries({
+    # every prefix has its own URI: cssutils keeps one prefix per URI by design (the last one), which is not what this sub is about
+    'decls': st.lists(st.sampled_from(RES_PREFIXES + ['']), max_size=4, unique=True).map(
+        lambda ps: [(q, dict(zip(RES_PREFIXES + [''], RES_URIS + ['urn:default']))[q]) for q in ps]),
+    'rules': st.lists(res_rule, min_size=1, max_size=4),
+    'escape': st.booleans(),
+    'assign': st.booleans(),
+})
+
+
+def check_resolution(case, ctx):
+    decls = [tuple(d) for d in case['decls']]
+    mapping = {}
+    for pfx, uri in decls:
+        mapping[pfx] = uri
+    default = mapping.get('', None)
+
+    def spell(pfx):
+        # a hex escape of the first letter is the same prefix
+        return ('\\%x ' % ord(pfx[0])) + pfx[1:] if case['escape'] and pfx[0] in 'abA' else pfx
+
+    text = ' '.join(('@namespace %s "%s";' % (pfx, uri)) if pfx else ('@namespace "%s";' % uri) for pfx, uri in decls)
+    expected = []
+    for sels, in_media in [(r[0], r[1]) for r in case['rules']]:
+        stext, pairs, ok = [], [], True
+        for ti, pfx in sels:
+            tmpl, items = SEL_T[ti]
+            stext.append(tmpl.replace('{p}', spell(pfx)))
+            one = []
+            for typ, how, name in items:
+                if how == 'P':
+                    if pfx not in mapping:
+                        ok = False
+                    one.append((typ, mapping.get(pfx), name))
+                elif how == 'ANY':
+                    one.append((typ, cssutils._ANYNS, name))
+                elif how == 'NONE':
+                    one.append((typ, '', name))
+                else:
+                    one.append((typ, default, name))
+            pairs.append(tuple(one))
+        rule = ', '.join(stext) + ' { top: 0 }'
+        text += ' ' + ('@media print { %s }' % rule if in_media else rule)
+        if ok:
+            expected.append(tuple(pairs))
+    saved = cssutils.log.raiseExceptions
+    cssutils.log.raiseExceptions = False
+    try:
+        try:
+            if case['assign']:
+                sheet = cssutils.CSSParser(fetcher=fetcher).parseString('@namespace zz "urn:old"; zz|k { top: 0 }')
+                sheet.cssText = text
+            else:
+                sheet = cssutils.CSSParser(fetcher=fetcher).parseString(text)
+            got = [pairs_of(r) for r in style_rules(sheet)]
+            gmap = dict(sheet.namespaces.items())
+        except Exception as e:  # noqa: BLE001
+            raise Violation('crash:parse:' + frame_sig(e), f'{text!r}: {e!r}')
+        if gmap != mapping:
+            raise Violation('resolve:mapping', f'{text!r}: {gmap} expected {mapping}')
+        if got != expected:
+            kept = len(got) != len(expected)
+            raise Violation('resolve:' + ('rule-with-undeclared-prefix-kept-or-declared-dropped' if kept else 'prefix-resolves-to-other-uri'),
+                            f'{text!r}: {got} expected {expected}')
+        check_sheet(sheet, {}, f'parse of {text!r}', 'resolution')
+    finally:
+        cssutils.log.raiseExceptions = saved
+    caps = len({pfx.lower() for pfx, _ in decls}) < len({pfx for pfx, _ in decls})
+    ctx.event('resolution:case-variants-declared' if caps else 'resolution:plain')
+    ctx.case(text, len(decls) >= 2 and bool(expected), {'text': text, 'mapping': mapping})
+
+
+SUBS.append(Sub('resolution', check_resolution, strategy=res_strategy, quick=3000, thorough=150000, shards_quick=8, budget_quick=60))
